@@ -122,6 +122,24 @@ def _random_scenarios(pid, rng, n, *, costs=False, findings=False) -> List[Dict[
     return scs
 
 
+def _trained_scenarios(pid, rng, n, *, costs=False) -> List[Dict[str, Any]]:
+    """Masks reached by a real optimizer (SGD on the architectural parameters, loss + strength * cost)."""
+    scs = []
+    while len(scs) < n:
+        dim = rng.choice([1, 1, 2])
+        arch = pitgen.random_arch(rng, dim=dim, max_nodes=rng.randint(3, 8), kernels=(1, 2, 3, 4, 5, 7, 9))
+        if not any(nd["op"] in ("conv", "lin") and not nd["excl"] for nd in arch["nodes"]):
+            continue
+        sc = {"arch": arch, "fold": rng.random() < 0.4, "seed": rng.randrange(10 ** 6), "alive": {}, "tm": {},
+              "train": {"steps": rng.randint(1, 8), "lr": rng.choice([0.05, 0.2, 0.5, 2.0]),
+                        "strength": rng.choice([1e-3, 1e-2, 0.1, 1.0]), "task": rng.choice([0.0, 0.01, 1.0]),
+                        "discrete": rng.random() < 0.3, "seed": rng.randrange(10 ** 6)},
+              "props": _props(pid), "src": "trained"}
+        sc["costs"] = rng.choice(COSTSETS_2D if dim == 2 else COSTSETS) if costs else [{"name": "p", "metric": "params"}]
+        scs.append(sc)
+    return scs
+
+
 def _c08_adversarial(rng, n) -> List[Dict[str, Any]]:
     """Arbitrary real mask parameters incl. all-zero / negative / huge / denormal values, written raw."""
     specials = [0.0, -0.0, 1e30, -1e30, 0.5, -0.5, 0.4999999, 0.5000001, 1e-38, -1e-38, 1.0, -1.0, 3.0e38, 0.25]
@@ -204,7 +222,7 @@ def _life_base(which, rng, pid):
 
 
 def _key(sc):
-    return {k: sc.get(k) for k in ("arch", "fold", "alive", "alpha", "tm", "tmraw", "costs", "pre", "variant")}
+    return {k: sc.get(k) for k in ("arch", "fold", "alive", "alpha", "tm", "tmraw", "costs", "pre", "variant", "train")}
 
 
 def _nontrivial(sc) -> bool:
@@ -220,6 +238,8 @@ def _nontrivial(sc) -> bool:
     for n, vals in sc.get("alpha", {}).items():
         if any(abs(v) <= 0.5 for v in vals[:-1]):
             return True
+    if sc.get("_pruned_observed"):
+        return True
     return False
 
 
@@ -339,6 +359,7 @@ def run_family(pid: str, tier: str, seed: int, replay=None) -> int:
     # ---------------------------------------------------------------- random drivers beyond the exhaustive bounds
     n_rand = {"C01": 250, "C04": 250, "C08": 150, "C09": 200}[pid] * (1 if quick else 12)
     scs += _random_scenarios(pid, rng, n_rand, costs=(pid == "C04"), findings=(pid == "C09"))
+    scs += _trained_scenarios(pid, rng, (80 if quick else 1200), costs=(pid == "C04"))
     if pid == "C08":
         scs += _c08_adversarial(rng, 200 if quick else 3000)
 
@@ -350,6 +371,9 @@ def run_family(pid: str, tier: str, seed: int, replay=None) -> int:
     t0 = _t.time()
     traces = pitgen.run_scenarios(scs)
     R.extra["exec_wall_s"] = round(_t.time() - t0, 1)
+    for sc, tr in zip(scs, traces):
+        if sc.get("train") and any(0 in l.get("mask", []) or 0 in l.get("tmask", []) for l in tr.get("L", [])):
+            sc["_pruned_observed"] = True
     R.validate("PITTrace", "PITTrace", traces, scs, nontrivial=_nontrivial, key=_key, label="all scenarios", chunk=1500)
     by_src: Dict[str, int] = {}
     for s in scs:
